@@ -303,7 +303,7 @@ def divide_split(state):
     """
     if isinstance(state, (int, np.integer)):
         remainder = state % 2
-        half = int(state / 2)
+        half = int(state // 2)
         if random.choice([True, False]):
             return [half + remainder, half]
         else:
